@@ -78,6 +78,8 @@ class Recorder:
             self.emit({"e": "STEP", "thr": self.tid(), "op": op, "stop": bool(data["stop"])})
         elif name == "worker.exit":
             self.emit({"e": "WEXIT", "thr": self.tid()})
+        elif name == "stateful.thread.exit":
+            self.emit({"e": "TEXIT", "thr": self.tid()})
         elif name == "control.count":
             self.emit({"e": "COUNT", "fails": int(data["failures"]), "limit": bool(data["limit"])})
         f = self.fault
@@ -105,7 +107,7 @@ class Recorder:
 
         class TracedQueue(queue.Queue):
             def get(self, block=True, timeout=None):
-                if rec.ctrlc_at:
+                if rec.ctrlc_at and block:   # Ctrl-C while the consumer WAITS for an event (C_CtrlC of the models); get_nowait() does not wait
                     with rec.lock:
                         rec.gets += 1
                         fire = rec.gets == rec.ctrlc_at
@@ -122,7 +124,8 @@ class Recorder:
             def _put(self, item):  # called with the queue's own mutex held: the true linearisation point of a put
                 super()._put(item)
                 kind = KIND.get(type(item).__name__, type(item).__name__)
-                rec.emit({"e": "QPUT", "k": kind, "thr": rec.tid()})
+                status = getattr(item, "status", None)
+                rec.emit({"e": "QPUT", "k": kind, "thr": rec.tid(), "st": getattr(status, "value", "") or ""})
 
         return TracedQueue()
 
